@@ -1086,3 +1086,7 @@ LEVEL_TEXT += ' Also (R7 = C11.R6): the body stream refuses only on counted byte
 
 LEVEL_TEXT += " Also (R8): the request's media type is looked up after RFC 9110 normalisation (cut at ';', whitespace trimmed, case folded)."
 LEVEL_TEXT += " Also (R9 = C03.R1, R10 = C01.R3): path variables are the walk's own segments, each percent-decoded exactly once with no other transformation."
+LEVEL_TEXT += (" R2 also decides the table when it is written through a generic helper (`self.parse_scalar::<T, _, _>(|v| visitor.visit_T(v))`, the helper inlined, its closure one shared generic body): "
+               "the visiting callable passes its own argument on untouched, the parsing code hands it the Ok payload of the one parse exactly once (`.and_then(f)` / `.map(f)` / `f(v)`, lib_c09.handoffs), and the "
+               "helper's type parameter is read off the callable's argument type. R1's query clause accepts the raw query as text or as its bytes (`str::as_bytes`) with an empty literal default (text or byte string, "
+               "`c[..]` only as a full-range Index); the streamed chunk's chain starts at the variant-precise sources of the item (lib_c01.sources), so a chunk that comes out of a spliced async helper as `Ok(Some(data))` is `data`.")
